@@ -85,14 +85,17 @@ def noisy(a, spelling='native'):
     import math
     L = xl.lib()
     x = math.nextafter(a['n'] / a['d'], math.inf)
-    return L.ft.Number(x) if spelling == 'wrapped' else x
+    if spelling.endswith('numpy'):      # the scalar type numeric libraries (and some functions of this one) hand back
+        import numpy
+        x = numpy.float64(x)
+    return L.ft.Number(x) if spelling.startswith('wrapped') else x
 
 
 def noisy_results(f, args):
     """the case once more with every non-whole numeric argument replaced by its noisy double: direct, wrapped, and through cells"""
     L = xl.lib()
     res = []
-    for sp in ('native', 'wrapped'):
+    for sp in ('native', 'wrapped', 'numpy', 'wrapped-numpy'):
         try:
             fn = L.xl.FUNCTIONS[calls.DIRECT_ALIAS.get(f, f)]
             pargs = [noisy(a, sp) if a['t'] == 'num' and a['d'] != 1 else xl.from_abs(a, sp) for a in args]
